@@ -5,6 +5,10 @@ import json, os, re, subprocess, sys
 V = os.path.dirname(os.path.dirname(os.path.abspath(__file__)))
 EXTRA = {"C01": ["C06"], "C07": ["C02"], "C19": ["C17", "C10"], "C04": ["C18"], "C02": ["C07", "C05"], "C15": [], "C16": []}
 only = sys.argv[1:]
+import shutil, tempfile
+# the evidence files describe the unchanged tree: keep them out of reach of these runs
+SAVE = tempfile.mkdtemp()
+shutil.copytree(os.path.join(V, "evidence"), os.path.join(SAVE, "evidence"))
 for d in sorted(os.listdir(os.path.join(V, "seeded"))):
     if only and d not in only:
         continue
@@ -34,3 +38,7 @@ for d in sorted(os.listdir(os.path.join(V, "seeded"))):
     meta["detected_by"] = det
     json.dump(meta, open(metap, "w"), indent=1)
     print(d, {k: (v["violation"], v.get("failing_input_found")) for k, v in det.items()})
+
+shutil.rmtree(os.path.join(V, "evidence"))
+shutil.copytree(os.path.join(SAVE, "evidence"), os.path.join(V, "evidence"))
+shutil.rmtree(SAVE)
